@@ -388,11 +388,16 @@ def gen_method(src_impl, fields, consts, fname, mode, names, rectype, self_terms
         em.lines = []
         if run_block(em, split_statements(inner), tail_ok=False) is not None:
             raise Unsupported("%s: nested control flow" % fname)
-        then_lines, then_fin = em.lines, finish(em)
+        then_lines, then_rec = em.lines, record(em, rectype, names)
         em.env = saved
         em.lines = []
-        else_fin = finish(em)
-        body_txt = "\n  ".join(pre + ["if %s >=? %s" % (l, r), "then " + " ".join(then_lines) + " " + then_fin, "else " + else_fin])
+        else_rec = record(em, rectype, names)
+        if mode == "ck" and any("<-" in x for x in then_lines):
+            body_txt = "\n  ".join(pre + ["if %s >=? %s" % (l, r), "then " + " ".join(then_lines) + " Some " + then_rec, "else Some " + else_rec])
+        else:
+            # nothing in the branch can trap: the conditional is a value
+            ite = "(if %s >=? %s\n   then %s %s\n   else %s)" % (l, r, " ".join(then_lines), then_rec, else_rec)
+            body_txt = "\n  ".join(pre + [("Some " + ite) if mode == "ck" else ite])
     else:
         body_txt = "\n  ".join(em.lines + [finish(em)])
     ps = " ".join("(%s : Z)" % p for p in params)
